@@ -60,4 +60,4 @@ def flagset(names):
     from bitcoin.core import scripteval as SE
     m = {'P2SH': SE.SCRIPT_VERIFY_P2SH, 'NULLDUMMY': SE.SCRIPT_VERIFY_NULLDUMMY, 'CLEANSTACK': SE.SCRIPT_VERIFY_CLEANSTACK,
          'DISCOURAGE_UPGRADABLE_NOPS': SE.SCRIPT_VERIFY_DISCOURAGE_UPGRADABLE_NOPS}
-    return {m[n] for n in names}
+    return {m[n] if n in m else SE.SCRIPT_VERIFY_FLAGS_BY_NAME[n] for n in names}
